@@ -3,6 +3,7 @@ use crate::PropEntry;
 pub mod c01;
 pub mod c02;
 pub mod c03;
+pub mod c04;
 pub mod c18;
 
 pub fn registry() -> Vec<PropEntry> {
@@ -10,6 +11,7 @@ pub fn registry() -> Vec<PropEntry> {
         PropEntry { id: "C01", run: c01::run, replay: c01::replay },
         PropEntry { id: "C02", run: c02::run, replay: c02::replay },
         PropEntry { id: "C03", run: c03::run, replay: c03::replay },
+        PropEntry { id: "C04", run: c04::run, replay: c04::replay },
         PropEntry { id: "C18", run: c18::run, replay: c18::replay },
     ]
 }
